@@ -7,5 +7,6 @@ for p in $PROPS; do
   s=$(date +%s)
   ./check $p --tier $TIER > .work/all_${TIER}_$p.out 2>&1
   rc=$?
+  python3 tools/note_run.py $p $TIER $rc $(( $(date +%s) - s )) 2>/dev/null
   echo "$p exit=$rc $(( $(date +%s) - s ))s $(grep -E 'held|VIOLATED|MACHINERY' .work/all_${TIER}_$p.out | cut -c1-160 | tail -1)"
 done
